@@ -39,6 +39,7 @@ META = dict(
 )
 META["text"] += " R2: the card identifier built from a sampled CVR is a function of that CVR's id alone."
 META["text"] += ' R1 also: the per-sample loop skips a number only under a guard equivalent to "outside the format\'s range" (1..total for Dominion, 0..total-1 for Hart).'
+META["text"] += ' R2 also: the sample is traversed once; raire_to_dominion returns the records it was given with only their id re-written.'
 
 
 def run(chk):
@@ -186,7 +187,22 @@ def _strip_int(e):
     return e.xreplace(repl) if repl else e
 
 
+def sample_read_once(chk, rel, qual):
+    """the sample is an iterable of sample numbers: it is traversed once, in order (a second traversal finds a one-shot iterable
+    empty and returns nothing, without any error)"""
+    fn = chk.fn(rel, qual)
+    reads = [x for x in walk_local(fn) if isinstance(x, ast.Name) and x.id == "sample" and isinstance(x.ctx, ast.Load)
+             and not (isinstance(parent(x), ast.Call) and norm(parent(x).func) == "len")]
+    chk.ob("C17.R2", f"{rel}:{qual}", "sample-traversed-once", len(reads) == 1,
+           "the sample numbers are read in one pass over `sample`", node=reads[1] if len(reads) > 1 else fn, strength="N", reads=len(reads))
+
+
 def cvr_lookup_rule(chk, name, fm):
+    sample_read_once(chk, fm["rel"], f"{name}.sample_from_cvrs")
+    sample_read_once(chk, fm["rel"], f"{name}.sample_from_manifest")
+    if name == "Dominion":
+        aud.ids_only_translation(chk, "C17.R2", fm["rel"], "Dominion.raire_to_dominion",
+                                 "the CVR-driven lookup tells phantoms by cvr.phantom and returns the CVRs themselves")
     rel = fm["rel"]
     fn = chk.fn(rel, f"{name}.sample_from_cvrs")
     where = f"{rel}:{name}.sample_from_cvrs"
